@@ -232,6 +232,11 @@ func (p *pathIterator) Next() pathToken {
 	default:
 		p.Unwind(s)
 		val, isInt := p.lit()
+		if val == "" {
+			// a '\\' outside of a quoted string: consume it, otherwise the iterator never advances
+			p.pos = s + 1
+			return newPathToken(pathTypeERR, "unexpected backslash", s, p.Pos())
+		}
 		if isInt {
 			return newPathToken(pathTypeLitInt, val, s, p.Pos())
 		}
